@@ -86,7 +86,7 @@ def sim_pmRest0 (cfg : Cfg) (fuel limit : Nat) (key : List Byte) (s : St) (ms : 
 
 def sim_pmKey0 (cfg : Cfg) (fuel : Nat) (c : Byte) (s : St) : Code × List Byte × St :=
   if c == 0x22 || c == 0x27 then parseQuoted cfg c (fuel+1) [] 0 (mv s)
-  else if inUnquoted c then (.ok, (parseUnquoted (fuel+1) [] s).1, (parseUnquoted (fuel+1) [] s).2)
+  else if inUnquoted c then ((if (parseUnquoted (fuel+1) [] s).1.length > cfg.maxStrLen then .noMemory else .ok), (parseUnquoted (fuel+1) [] s).1, (parseUnquoted (fuel+1) [] s).2)
   else (.invalid, [], s)
 
 theorem sim_parseMembers0_succ (cfg : Cfg) (fuel limit : Nat) (s : St) (ms : List (List Byte × Val)) :
@@ -259,7 +259,11 @@ theorem sim_pmKey (cfg : Cfg) (h31 : 31 ≤ cfg.maxStrLen) (fuel : Nat) (c : Byt
     by_cases hu : inUnquoted c = true
     · rw [if_pos hu, if_pos hu]
       obtain ⟨u1, u2, u3, u4, u5, u6⟩ := sim_unquoted cfg (fuel + 1) x hp hb h31 h0
-      exact ⟨u1, u2, u3, u4, u5, fun h => Or.inl (u6 h)⟩
+      refine ⟨u1, u2, u3, u4, fun h => ?_, fun h => Or.inl (u6 h)⟩
+      have hl := sim_unquoted_len cfg (fuel + 1) x hp hb h31 h0 h
+      rw [u5 h]
+      show Code.ok = if _ then Code.noMemory else Code.ok
+      rw [if_neg (by omega)]
     · rw [if_neg hu, if_neg hu]
       obtain ⟨a1, a2, a3, a4, a5, a6⟩ := sim_startString cfg x hp
       exact ⟨rfl, a1, a2, a4 hb h31, fun _ => rfl, fun _ => Or.inr ⟨rfl, by intro h; cases h⟩⟩
